@@ -48,6 +48,7 @@ OBLIGATIONS = [
     "SkVerif.C04.nested_get_reads_named_component",
     "SkVerif.C04.component_readable_by_name",
     "SkVerif.C04.wf_setParams_getParams_id",
+    "SkVerif.C04.wf_setParams_getParams_id_deep",
     "SkVerif.C04.wf_setParams_getParams_id_meta",
     "SkVerif.C04.setParams_bare_writes_only_that_param",
     "SkVerif.C04.setParams_unknown_rejected",
@@ -812,7 +813,7 @@ def real_tree(case):
                 elif name == "set":
                     kw = {}
                     nodes = {}
-                    for kv in arg.split("|"):
+                    for kv in ([] if arg == "-" else arg.split("|")):
                         k, _, vs = kv.partition("=")
                         nodes[k] = parse_tree(vs)
                     for k, node in nodes.items():
